@@ -38,6 +38,7 @@ func replay(cat *catalogue, path string) {
 			Pathmix  *pmScenario  `json:"pathmix"`
 			Dispatch *dspScenario `json:"dispatch"`
 			Alloc    *relScenario `json:"allocator_placement"`
+			Hetero   *hetScenario `json:"hetero"`
 			Chase    *chaseCase   `json:"chase"`
 		} `json:"witness"`
 	}
@@ -45,9 +46,11 @@ func replay(cat *catalogue, path string) {
 		fmt.Println("cannot parse replay:", err)
 		os.Exit(2)
 	}
-	if f.Witness.Pathmix != nil || f.Witness.Chase != nil || f.Witness.Dispatch != nil || f.Witness.Alloc != nil { // path-mixing / chase / dispatch layers
+	if f.Witness.Pathmix != nil || f.Witness.Chase != nil || f.Witness.Dispatch != nil || f.Witness.Alloc != nil || f.Witness.Hetero != nil { // path-mixing / chase / dispatch layers
 		rec := &printRec{want: f.Key}
-		if f.Witness.Alloc != nil {
+		if f.Witness.Hetero != nil {
+			runHetero(rec, f.Witness.Hetero)
+		} else if f.Witness.Alloc != nil {
 			runAllocPlacement(rec, f.Witness.Alloc)
 		} else if f.Witness.Dispatch != nil {
 			runDispatch(rec, f.Witness.Dispatch)
@@ -267,6 +270,12 @@ func main() {
 		})
 	}
 
+	// compute units with different VGPR counts per SIMD (hetero.go)
+	hets := heteroScenarios(c)
+	if os.Getenv("C07_SKIP_HETERO") == "" {
+		vlib.Parallel(len(hets), 0, func(i int) { runHetero(c, hets[i]) })
+	}
+
 	// allocator placement: the release kernels dispatched by the real command processor (alloc.go)
 	allocs := allocScenarios(c)
 	if os.Getenv("C07_SKIP_ALLOC") == "" {
@@ -307,6 +316,8 @@ func main() {
 			"dispatch layer: case = scenario (both register files of a real compute unit filled with a pattern, 1..5 resident wavefronts with seeded footprints, then 2..6 wavefronts dispatched through the real " +
 			"WfDispatcherImpl.DispatchWf with seeded enable bits / id levels / V3 and V5 code objects; both files compared byte by byte around every dispatch: only the cells the ABI initialises may change, with the ABI's values; " +
 			"every second dispatch is repeated in the emulation compute unit), non-trivial = scenario without deviation; " +
+			"hetero layer: case = real compute unit built with WithVGPRCount(v) for a vector with different counts per SIMD (SIMD i>0 larger and smaller than SIMD 0), 3..6 wavefronts per SIMD placed up to that SIMD's own registers per lane, " +
+			"96 random 1/2/4-dword writes through the accessors, every lane of every register of every wavefront compared with the flat model every 12 writes; non-trivial = configuration without deviation; " +
 			"allocator-placement layer: case = the release kernels launched concurrently (1-, 2-, 3- and 4-wavefront work-groups, different register counts) through a real cp.CommandProcessor onto the real compute unit; " +
 			"register ranges of simultaneously resident wavefronts taken from the MapWGReq trace must be disjoint and no register of a live wavefront may change; non-trivial = scenario without deviation; " +
 			"decode-history layer (runs first, sequentially): case = instruction stream decoded on a long-lived decoder per architecture (64-bit uses of vcc/exec/SGPR pairs before and after 32-bit uses of their halves, " +
@@ -345,6 +356,8 @@ func main() {
 			"dsp.scenarios": int64(len(dsps)) * 9 / 10, "dsp.dispatches": int64(2 * len(dsps)), "dsp.dispatches_with_sreg_offset_ne_vreg_offset": int64(2 * len(dsps)),
 			"dsp.dispatches_with_id_level_2": int64(len(dsps)) / 2, "dsp.dispatches_onto_simd_with_2plus_residents": int64(len(dsps)), "dsp.dispatches_v5": int64(len(dsps)) / 10,
 			"dsp.emu_initialisations_compared": int64(len(dsps)), "dsp.init_cells_verified": int64(100 * len(dsps)),
+			"hetero_vgpr_cu_configs": int64(len(hets)) * 9 / 10, "hetero.writes": int64(80 * len(hets)), "hetero.wavefronts_beyond_simd0_lane_slice": int64(len(hets)) / 2,
+			"hetero.cells_compared_on_simds_larger_than_simd0": int64(20000 * len(hets)), "hetero.cells_compared_on_simds_smaller_than_simd0": int64(10000 * len(hets)),
 			"alloc.scenarios": int64(len(allocs)) * 9 / 10, "alloc.work_groups_mapped": int64(15 * len(allocs)), "alloc.maps_with_fragmented_sgpr_file": int64(3 * len(allocs)),
 			"alloc.maps_with_groups_of_different_wavefront_counts_resident": int64(8 * len(allocs)), "alloc.range_pairs_checked": int64(500 * len(allocs)), "alloc.dumps_judged": int64(20 * len(allocs)),
 			"dh.histories": int64(len(dhs)), "dh.instructions_decoded": int64(150 * len(dhs)), "dh.instructions_executed": int64(300 * len(dhs)),
